@@ -29,6 +29,11 @@ pub trait Obj {
     fn rewrap(&self) -> Box<dyn Obj>;
     /// `format!("{:?}")` / `format!("{:#?}")`
     fn debug(&self, alternate: bool) -> String;
+    /// `self == new_with_raw_value(self.raw_value())` through a user-side `#[derive(PartialEq)]` on the
+    /// bitfield (struct attributes are passed through by the macro); None when the adapter does not offer it
+    fn eq_rewrap(&self) -> Option<bool> {
+        None
+    }
 }
 
 pub struct ConstCase {
